@@ -384,7 +384,7 @@ Lemma bs_finish b t d s' n : n <= len b ->
   bs_next_depth (bs_new b) t d = ({| bs_b := drop n b; bs_n := 0 |}, Ok (take n b)).
 Proof.
   intros Hn E (Hb & Hle & Hr & _). unfold bs_next_depth. change (bs_b (bs_new b)) with b.
-  rewrite E. cbn [sbind]. rewrite Hb.
+  change {| bs_b := b; bs_n := 0 |} with (bs_new b). rewrite E. cbn [sbind]. rewrite Hb.
   assert (Hnn : bs_n s' = n).
   { apply (f_equal len) in Hr. rewrite !len_drop in Hr. lia. }
   rewrite Hnn. unfold slice_range, slice_from, sret.
@@ -409,6 +409,7 @@ Proof.
   - destruct T as [s' [E HR']]. specialize (G n h eq_refl).
     eapply bs_finish; eauto. lia.
   - destruct T as [s' [c [E Hc]]]. unfold bs_next_depth. change (bs_b (bs_new b)) with b.
+    change {| bs_b := b; bs_n := 0 |} with (bs_new b).
     rewrite E. cbn [sbind]. exists s', c. auto.
 Qed.
 
@@ -461,3 +462,8 @@ Proof. apply bs_next_depth_safe. Qed.
 Theorem bs_next_bounded b t s out : wf b -> t < 256 ->
   bs_next (bs_new b) t = (s, Ok out) -> 1 <= len out <= len b /\ out = take (len out) b.
 Proof. apply bs_next_depth_bounded. Qed.
+
+(* since the repair of the stale offset: whatever an earlier (failed) Next left in p.n, Next behaves as on
+   a decoder freshly reset to the same bytes *)
+Lemma bs_next_forgets_offset b k t : bs_next {| bs_b := b; bs_n := k |} t = bs_next (bs_new b) t.
+Proof. unfold bs_next, bs_next_depth, bs_new. cbn [bs_b]. reflexivity. Qed.
